@@ -95,6 +95,12 @@ MIRRORED = {
     ('michelson/forge.py', None, 'unforge_public_key'): '74849358039e968a',
     ('michelson/forge.py', None, 'unforge_chain_id'): '0b5184af09bb5600',
     ('michelson/forge.py', None, 'unforge_signature'): '0e5801b5504802df',
+    # ---- extension: ticket, lambda (`TicketType.from_python_object` is recognised below: repaired / pinned)
+    ('michelson/types/ticket.py', 'TicketType', 'to_python_object'): '4f21bffc70a8124d',
+    ('michelson/types/domain.py', 'LambdaType', 'from_python_object'): '4f502615cddb0feb',
+    ('michelson/types/domain.py', 'LambdaType', 'to_python_object'): '8372006ed6295473',
+    ('michelson/types/domain.py', 'LambdaType', 'from_micheline_value'): '7a96394231c2ea15',
+    ('michelson/types/domain.py', 'LambdaType', 'to_micheline_value'): '97c3ea76549aef51',
     ('contract/data.py', 'ContractData', 'decode'): 'e0c5d831d3830454',
     ('contract/data.py', 'ContractData', 'encode'): '6828d651262620a8',
 }
@@ -129,6 +135,12 @@ LAYOUT_PINNED = 'f45adf8c82a80d26'
 # suppressed: `to_python_object(try_unpack=True)` of the bytes 0x05 raises IndexError)
 BLIND_UNPACK_FALLS_BACK = '941de18a19eea18d'
 BLIND_UNPACK_PINNED = '47be26f240e58103'
+
+# TicketType.from_python_object: the body the mirror was made from (fixes/C12-3: ticketer, item and amount are converted one by
+# one, the way to_python_object shows them) and the pinned body (the object read as a value of `pair address (pair t nat)`,
+# whose layout flattens an unnamed pair t: `ticket (pair nat nat)` did not convert back)
+TICKET_COMPONENTWISE = 'daaab04caa33feda'
+TICKET_PINNED = '3d2b52de886d843c'
 
 PAIR_LT_PINNED = ['for i, item in enumerate(self.items):\n    if item > other.items[i]:\n        return False', 'return True']
 PAIR_LT_LEX = ['for i, item in enumerate(self.items):\n    if item != other.items[i]:\n        return item < other.items[i]', 'return False']
@@ -212,6 +224,20 @@ def gen(status):
     out.append('/-- `blind_unpack` goes on to the next reading whenever `unforge_micheline` fails (`some false`: the old shape, IndexError /')
     out.append('KeyError escape; `none`: unrecognised body) -/')
     out.append('def blindUnpackFallsBack : Option Bool := ' + ('none' if falls is None else f'some {str(falls).lower()}'))
+
+    # ---- TicketType.from_python_object
+    tf = get_fn(tree('michelson/types/ticket.py'), 'TicketType', 'from_python_object')
+    tick = None
+    if tf is not None:
+        h = body_hash(tf)
+        tick = True if h == TICKET_COMPONENTWISE else False if h == TICKET_PINNED else None
+    status['TicketType.from_python_object converts the three components'] = (
+        tick is True,
+        '(ticketer, item, amount) converted one by one (as mirrored)' if tick
+        else 'old shape: the object is read as a value of pair address (pair t nat); a ticket of an unnamed pair does not convert back' if tick is False
+        else 'unrecognised body')
+    out.append('/-- `TicketType.from_python_object` converts ticketer, item and amount one by one (`some false`: the old comb shape) -/')
+    out.append('def ticketComponentwise : Option Bool := ' + ('none' if tick is None else f'some {str(tick).lower()}'))
 
     # ---- bls12_381_fr modulus
     fr = find_class(tree('michelson/types/bls.py'), 'BLS12_381_FrType')
